@@ -105,15 +105,19 @@ def lns_streams(ops, quick_rnd, thorough_rnd):
 
 # ---------------------------------------------------------------------------------------------- areal (C18, C04 clause)
 AREAL_SMALL = [(n, es) for n in range(4, 13) for es in range(1, n - 2)]
-AREAL_LARGE = [(16, 5), (16, 8), (17, 5), (20, 8), (24, 8), (24, 5), (32, 8), (32, 11), (33, 8), (48, 11), (64, 11)]
+AREAL_LARGE = [(16, 5), (16, 8), (17, 5), (20, 8), (24, 8), (24, 5), (32, 8), (32, 11), (33, 8), (48, 11), (64, 11),
+               # targets as wide as / wider than the source fraction, float / double subnormals in range (D13 repairs)
+               (27, 2), (28, 2), (32, 5), (32, 2), (59, 5), (60, 5), (64, 8), (64, 2), (20, 12), (40, 12), (16, 10),
+               # more than 52 fraction bits: read back into long double (told lines)
+               (62, 7), (64, 10)]
 
 
 def areal_streams(ops, quick_rnd, thorough_rnd):
-    """ops = assign (C18) | native (C04 areal clause; only es <= 7 executes, larger es is undefined behaviour)"""
+    """ops = assign (C18) | native (C04 areal clause; to_native<double> for es <= 10, to_native<float> for es <= 7)"""
     def f(tier, seed, exes):
         jobs = []
-        small = [c for c in AREAL_SMALL if ops != "native" or c[1] <= 7]
-        large = [c for c in AREAL_LARGE if ops != "native" or c[1] <= 7]
+        small = [c for c in AREAL_SMALL if ops != "native" or c[1] <= 10]
+        large = [c for c in AREAL_LARGE if ops != "native" or c[1] <= 10]
         for (n, es) in small:
             if tier == "quick":
                 bts = BTS if n <= 9 else [BTS[(seed + n + es) % 3]]
@@ -163,7 +167,7 @@ PROPS = {
         level_text="Lean theorems (all nbits, rbits, block widths, both behaviours) that the model of lns operator*=, operator/= "
                    "(uradd/ursub, clamp compare, Wrapping `lexp += rexp` / `lexp -= rexp`) computes the exact integer exponent "
                    "sum/difference with clamp / wrap semantics, zero absorbing, NaN propagating, sign product (Wrapping `/=` was "
-                   "repaired in f65bb52, the full theorem C09_div_wrap is the obligation); "
+                   "repaired in 848b03b, the full theorem C09_div_wrap is the obligation); "
                    "add/sub: the model of the double detour + convert_ieee754 takes the observed libm values "
                    "(pow, log2) as inputs and every implementation result is judged against the exact REAL sum by certified interval "
                    "arithmetic; correspondence exhaustive for every configuration <= 9 bits x {Saturating, Wrapping} x {u8,u16,u32}",
@@ -180,14 +184,17 @@ PROPS = {
         harness=["h_areal_u8", "h_areal_u16", "h_areal_u32"],
         streams=areal_streams("assign", 150, 4000),
         level="proof",
-        level_text="Lean theorems about the line-by-line model of areal::operator=(float/double): enclosure of every finite source whose "
-                   "unbiased exponent is below MAX_EXP-1 or whose top fraction bits are not all ones, specials preserved; the defects of "
-                   "D13 are proved as counterexamples; correspondence: sources generated from every exact target encoding of every "
-                   "configuration <= 12 bits on u8/u16/u32 (exact, +-1 source ulp, single dropped bit, between, out of range, subnormal, NaN payloads)",
-        level_note="trusted: Lean kernel, hand-written model tied by correspondence on explored inputs, g++ 12.2",
+        level_text="Lean theorems about the line-by-line model of areal::operator=(float/double) (after the repair of D13 in the library): "
+                   "EVERY float / double bit pattern — finite normal, subnormal, +-0, +-inf, NaN with any payload, out of range, target fraction "
+                   "narrower than, as wide as or wider than the source — is enclosed by its conversion (C18_encloses_full, C18_encloses_full_f64: "
+                   "every es >= 1, nbits >= es+3, nbits <= 32 resp. 64, block types u8/u16/u32/u64); correspondence: sources generated from "
+                   "every exact target encoding of every configuration <= 12 bits on u8/u16/u32 (exact, +-1 source ulp, single dropped bit, "
+                   "between, out of range, subnormal sources, NaN payloads) and sampled ones up to 64 bits incl. targets wider than the source",
+        level_note="trusted: Lean kernel, hand-written model tied by correspondence on explored inputs, g++ 12.2; operator=(float) into "
+                   "nbits > 32 (the code assembles the encoding in a uint32_t) is outside the theorems and is not executed",
         explanation="areal conversion from float/double encloses the source (ubit semantics); spec predicate `encloses` on the exact rational "
-                    "value of the source; known findings D13 (exponent == MAX_EXP, top-binade all-ones fraction, NaN payloads, subnormal "
-                    "sources, targets not narrower than the source)",
+                    "value of the source; the five D13 input regions (exponent == MAX_EXP, top-binade all-ones fraction, NaN payloads, "
+                    "subnormal sources, targets not narrower than the source) were repaired by fix: commits and are no known findings any more",
         assumptions=["the compiled code behaves like the model on inputs that were not explored"],
     ),
     # C04 — ONLY the areal clause (to_native = value of the encoding with the ubit ignored, and back). The posit / cfloat /
@@ -199,10 +206,12 @@ PROPS = {
         proof_modules=["UVerifProofs.Props.C04Areal"],
         level="proof",
         level_text="(areal clause only) Lean theorem: the model of areal::to_native returns the value of the encoding with the uncertainty "
-                   "bit ignored for every configuration with es <= 7 and fbits <= 52; correspondence on every encoding of every "
-                   "configuration <= 12 bits with es <= 7 (to_native<double>, to_native<float>, and conversion back)",
-        level_note="areal to_native executes `1ull << -exponent` with a count >= 64 for es >= 8 (undefined behaviour, D13): those "
-                   "configurations are not executed; trusted: Lean kernel, model tied by correspondence, g++ 12.2",
+                   "bit ignored for every configuration with es <= 7 and fbits <= 52, and converting back gives the encoding with the ubit "
+                   "cleared (fbits <= 52; +-inf, quiet and signalling NaN round-trip as well); correspondence on every encoding of every "
+                   "configuration <= 12 bits (to_native<double> for es <= 10, to_native<float> for es <= 7, and conversion back)",
+        level_note="areal to_native used to execute `1ull << -exponent` with a count >= 64 for es >= 8 (undefined behaviour, repaired: those "
+                   "exponents take the ipow branch now); es >= 11 leaves binary64's range and is not executed; trusted: Lean kernel, model "
+                   "tied by correspondence, g++ 12.2",
         explanation="areal read-back: to_native is the lower bound of the encoded interval; converting back gives the encoding with the ubit cleared",
         assumptions=["the compiled code behaves like the model on inputs that were not explored"],
     ),
